@@ -1,65 +1,54 @@
 // Class-level model of QMap<QString, V> (DESIGN 2.3 "class-level containers"), installed as a full C++ specialisation
 // BEFORE the qxmpp code that uses the map is compiled.  Value semantics (what implicit sharing implements), fixed
-// capacity VP_MAP_CAP, one fixed slot per entry (no shifting, indices stay concrete), lookup by key equality.
+// capacity CAP, one fixed slot per entry (no shifting, every access at a literal index), lookup by key equality.
 // Not modelled: ordering (keys() returns the keys in slot order, QMap returns them sorted), iterators.
 // Exceeding the capacity is a MODEL failure (inconclusive), never a silent drop.
+//
+// Every slot ALWAYS holds a live, valid V (a default-constructed one while the slot is unused).  Symbolic execution merges
+// references to several slots; a null or uninitialised alternative in such a merge turns every later dereference into a
+// read of an unknown object (measured: the destructor of a QXmppPresence then explores garbage lists).  With live
+// defaults all alternatives are valid objects.
 #pragma once
 #include <QString>
 #include <QList>
-#include <new>
-#include <cstring>
-#ifndef VP_MAP_CAP
-#define VP_MAP_CAP 3
-#endif
 extern "C" void vp_c12_model_limit(bool ok);   // models.c: ASSERT(ok, "..."), ASSUME(ok)
 
-// A cell that is not in use is zero-filled, never uninitialised: symbolic execution merges references to several cells,
-// and a read of uninitialised storage on an infeasible branch of such a merge would poison every later dereference.
-// Zero is inert for the value types used here (d-pointers: the Qt smart pointers skip null; flags: false).
-template<typename V> union VpCell { V v; char none; VpCell() { std::memset(static_cast<void *>(this), 0, sizeof(*this)); } ~VpCell() {} };
-
-template<typename V> class VpSlotMap
+template<typename V, int CAP> class VpSlotMap
 {
 public:
-    bool used[VP_MAP_CAP];
-    QString key[VP_MAP_CAP];
-    VpCell<V> cell[VP_MAP_CAP];
+    bool used[CAP];
+    QString key[CAP];
+    V val[CAP];
 
-    VpSlotMap() { for (int i = 0; i < VP_MAP_CAP; i++) used[i] = false; }
-    VpSlotMap(const VpSlotMap &o) { for (int i = 0; i < VP_MAP_CAP; i++) { used[i] = false; } copyFrom(o); }
-    VpSlotMap &operator=(const VpSlotMap &o) { if (this != &o) { clear(); copyFrom(o); } return *this; }
-    ~VpSlotMap() { clear(); }
+    VpSlotMap() { for (int i = 0; i < CAP; i++) used[i] = false; }
+    VpSlotMap(const VpSlotMap &o) { for (int i = 0; i < CAP; i++) { used[i] = o.used[i]; key[i] = o.key[i]; val[i] = o.val[i]; } }
+    VpSlotMap &operator=(const VpSlotMap &o) { if (this != &o) { for (int i = 0; i < CAP; i++) { used[i] = o.used[i]; key[i] = o.key[i]; val[i] = o.val[i]; } } return *this; }
+    ~VpSlotMap() { }
 
-    void clear() { for (int i = 0; i < VP_MAP_CAP; i++) { if (used[i]) { cell[i].v.~V(); new (&cell[i]) VpCell<V>(); used[i] = false; key[i] = QString(); } } }
-    int size() const { int n = 0; for (int i = 0; i < VP_MAP_CAP; i++) { if (used[i]) n++; } return n; }
+    void clear() { for (int i = 0; i < CAP; i++) { if (used[i]) { used[i] = false; key[i] = QString(); val[i] = V(); } } }
+    int size() const { int n = 0; for (int i = 0; i < CAP; i++) { if (used[i]) n++; } return n; }
     int count() const { return size(); }
     bool isEmpty() const { return size() == 0; }
-    bool contains(const QString &k) const { for (int i = 0; i < VP_MAP_CAP; i++) { if (used[i] && key[i] == k) return true; } return false; }
-    V value(const QString &k) const { for (int i = 0; i < VP_MAP_CAP; i++) { if (used[i] && key[i] == k) return cell[i].v; } return V(); }
+    bool contains(const QString &k) const { for (int i = 0; i < CAP; i++) { if (used[i] && key[i] == k) return true; } return false; }
+    V value(const QString &k) const { for (int i = 0; i < CAP; i++) { if (used[i] && key[i] == k) return val[i]; } return V(); }
     const V operator[](const QString &k) const { return value(k); }
-    // every access happens at a literal slot index under a (possibly symbolic) guard
-    V *find(const QString &k) { for (int i = 0; i < VP_MAP_CAP; i++) { if (used[i] && key[i] == k) return &cell[i].v; } return nullptr; }
-    const V *find(const QString &k) const { for (int i = 0; i < VP_MAP_CAP; i++) { if (used[i] && key[i] == k) return &cell[i].v; } return nullptr; }
     void insert(const QString &k, const V &v)
     {
-        for (int i = 0; i < VP_MAP_CAP; i++) { if (used[i] && key[i] == k) { cell[i].v = v; return; } }
-        for (int i = 0; i < VP_MAP_CAP; i++) { if (!used[i]) { new (&cell[i].v) V(v); key[i] = k; used[i] = true; return; } }
+        for (int i = 0; i < CAP; i++) { if (used[i] && key[i] == k) { val[i] = v; return; } }
+        for (int i = 0; i < CAP; i++) { if (!used[i]) { val[i] = v; key[i] = k; used[i] = true; return; } }
         vp_c12_model_limit(false);
     }
     V &operator[](const QString &k)
     {
-        for (int i = 0; i < VP_MAP_CAP; i++) { if (used[i] && key[i] == k) return cell[i].v; }
-        for (int i = 0; i < VP_MAP_CAP; i++) { if (!used[i]) { new (&cell[i].v) V(); key[i] = k; used[i] = true; return cell[i].v; } }
+        for (int i = 0; i < CAP; i++) { if (used[i] && key[i] == k) return val[i]; }
+        for (int i = 0; i < CAP; i++) { if (!used[i]) { key[i] = k; used[i] = true; return val[i]; } }   // unused slot == default V
         vp_c12_model_limit(false);
-        return cell[0].v;
+        return val[0];
     }
     int remove(const QString &k)
     {
-        for (int i = 0; i < VP_MAP_CAP; i++) { if (used[i] && key[i] == k) { cell[i].v.~V(); new (&cell[i]) VpCell<V>(); used[i] = false; key[i] = QString(); return 1; } }
+        for (int i = 0; i < CAP; i++) { if (used[i] && key[i] == k) { used[i] = false; key[i] = QString(); val[i] = V(); return 1; } }
         return 0;
     }
-    QList<QString> keys() const { QList<QString> r; for (int i = 0; i < VP_MAP_CAP; i++) { if (used[i]) r.append(key[i]); } return r; }
-
-private:
-    void copyFrom(const VpSlotMap &o) { for (int i = 0; i < VP_MAP_CAP; i++) { if (o.used[i]) { new (&cell[i].v) V(o.cell[i].v); key[i] = o.key[i]; used[i] = true; } } }
+    QList<QString> keys() const { QList<QString> r; for (int i = 0; i < CAP; i++) { if (used[i]) r.append(key[i]); } return r; }
 };
